@@ -24,7 +24,7 @@ func chainInvariantCheck(r *ev.Run, id string) {
 	r.Rule(chaosRule + " Invariant evaluated at every committed height of every history. Non-trivial history = the state events relevant to this property were observed (see event:* counters) and the node finished the script; distinct = digest of the script.")
 	r.Assume("fabricated-block driver follows Tendermint's ABCI call order and validator-update delay (DESIGN.md §8)")
 	runs := runChaos(r, "chaos-inv", n, func(i int) chain.ChaosCfg {
-		return chain.ChaosCfg{Nodes: 7 + i%6, Apps: 3 + i%3, Accts: 5, Blocks: blocks, Delegators: i%2 == 1}
+		return chain.ChaosCfg{Nodes: 7 + i%6, Apps: 3 + i%3, Accts: 5, Blocks: blocks, Delegators: i%2 == 1, SlashPpm: []int64{0, 7, 0, 33}[i%4]}
 	}, "full")
 	for _, cr := range runs {
 		if !conclusive(r, cr) {
